@@ -529,7 +529,21 @@ class Interp:
                         return ('bound', m, None if static else base)
                 raise Unsupported('attribute %s of %r' % (e.attr, base))
             if isinstance(base, tuple) and base and base[0] == 'global':
-                return ('global', base[1] + '.' + e.attr)
+                d = base[1] + '.' + e.attr
+                tgt = self.repo.lookup(d)
+                if isinstance(tgt, tuple) and tgt and tgt[0] == 'const' \
+                        and isinstance(tgt[2], (ast.Constant, ast.Tuple,
+                                                ast.Dict, ast.List)):
+                    # a literal constant of another module of the package
+                    ck = (tgt[1].name, model.norm(tgt[2]), e.attr)
+                    cache = self.shared.setdefault('consts', {})
+                    if ck not in cache:
+                        try:
+                            cache[ck] = self.spawn(tgt[1]).ev(tgt[2], {})
+                        except Unsupported:
+                            cache[ck] = ('global', d)
+                    return cache[ck]
+                return ('global', d)
             return ('attr', base, e.attr)
         if isinstance(e, ast.Call):
             return self.call(e, env)
